@@ -350,7 +350,30 @@ fn check_view(
 fn make_order(tg: &TreeGen, kind: &OrderKind, rng: &mut Rng) -> Vec<H> {
     let mut v: Vec<H> = tg.order.clone();
     match kind {
-        OrderKind::InOrder | OrderKind::ChildInCommitWindow => {}
+        OrderKind::InOrder => {}
+        OrderKind::ChildInCommitWindow => {
+            // the best tip C and its parent P go last (P's other descendants wait as orphans), so
+            // that nothing arrives after C that could make the chain service look at its orphan
+            // pool again; only when P is heavier than everything delivered before it (its import
+            // publishes a tip) -- otherwise plain generation order
+            let all: HashSet<H> = v.iter().cloned().collect();
+            let (_, best) = tg.rc.best(&all);
+            let c = best[0];
+            let p = tg.rc.get(&c).parent;
+            if best.len() == 1 && p != tg.rc.genesis && tg.rc.get(&p).chain_valid {
+                let ptd = tg.rc.get(&p).td.clone();
+                let lighter = v.iter().filter(|x| **x != p && **x != c).all(|x| {
+                    let rec = tg.rc.get(x);
+                    // blocks that cannot connect before P arrives do not matter
+                    !rec.chain_valid || rec.td < ptd || tg.rc.ancestor_at(x, tg.rc.get(&p).number) == Some(p)
+                });
+                if lighter {
+                    v.retain(|x| *x != p && *x != c);
+                    v.push(p);
+                    v.push(c);
+                }
+            }
+        }
         OrderKind::Reverse => v.reverse(),
         OrderKind::Random => rng.shuffle(&mut v),
         OrderKind::ChildBeforeParent => {
@@ -530,8 +553,15 @@ fn deliver_and_check(
     let window_at: Option<usize> = if matches!(kind, OrderKind::ChildInCommitWindow) {
         let mut cands = vec![];
         let mut best_td: Option<ckb_types::U256> = None;
+        // blocks connected to genesis through delivered blocks (orphans do not compete)
+        let mut connected: HashSet<H> = HashSet::new();
+        connected.insert(rc.genesis);
         for i in 0..order.len().saturating_sub(1) {
             let rec = rc.get(&order[i]);
+            if !connected.contains(&rec.parent) {
+                continue;
+            }
+            connected.insert(order[i]);
             let heaviest = best_td.as_ref().map(|t| rec.td > *t).unwrap_or(true);
             if heaviest && rec.chain_valid {
                 best_td = Some(rec.td.clone());
@@ -541,7 +571,16 @@ fn deliver_and_check(
                 cands.push(i);
             }
         }
-        if cands.is_empty() { None } else { Some(cands[rng.usize_below(cands.len())]) }
+        // (make_order puts the pair (parent of the best tip, best tip) last when it qualifies)
+        let last_pair = order.len().checked_sub(2).filter(|i| cands.contains(i));
+        if let Some(i) = last_pair {
+            r.c01.count("order.ChildInCommitWindow.child_is_last_delivery");
+            Some(i)
+        } else if cands.is_empty() {
+            None
+        } else {
+            Some(cands[rng.usize_below(cands.len())])
+        }
     } else {
         None
     };
